@@ -1,3 +1,4 @@
 import MoqModel.Render
 import MoqModel.Sexp
 import MoqModel.WF
+import MoqModel.GoFile
